@@ -1485,4 +1485,69 @@ example : |((5 : ℝ) / 2 + 1 / 8) - 5 / 2| ≤ 1 / 4 ∧ ∀ z : ℤ, (1 / 4 : 
   · have : (3 : ℝ) ≤ (z : ℝ) := by exact_mod_cast h
     rw [abs_of_neg (by linarith)]; linarith
 
+/-! ## pass 11 -/
+
+/-- **the whole output of knn_filter computed from a rounded distance matrix is the output of the model.** `D'` is ANY computed
+distance (the one matrix the code uses for the radius mask and for `topk`) within `δ` of `pdist` on the cloud; no exact distance
+is within `δ` of the radius (if one is given); in every row `k+1` distances are within a threshold `t_p` and all others beyond
+`t_p + 2δ`. Then for every unsorted-contract kernel run on the rounded rows, rows retained by the rounded mask, averaged over the
+points the kernel selects: exactly `knnFilter` of the real-number model under ANY sorted-contract kernel (pass-10 theorems
+`knn_filter_robust` + `nbr_filter_robust` glued over all rows). -/
+theorem knn_filter_robust_all (topk topkU : Bool → List ℝ → Nat → List Nat) (htk : TopkContract topk) (htu : TopkContractU topkU)
+    (o : Norm) (pdim kk : Nat) (radius : Option ℝ) (pts : List (Pt ℝ)) (D' : Pt ℝ → Pt ℝ → ℝ) (δ : ℝ) (hδ0 : 0 ≤ δ)
+    (hk : kk + 1 ≤ pts.length)
+    (hδ : ∀ p ∈ pts, ∀ q ∈ pts, |D' p q - pdist o pdim p q| ≤ δ)
+    (hrad : ∀ r, radius = some r → ∀ p ∈ pts, ∀ q ∈ pts, δ < |pdist o pdim p q - r|)
+    (hcut : ∀ p ∈ pts, ∃ t : ℝ, (∀ q ∈ pts, pdist o pdim p q ≤ t ∨ t + 2 * δ < pdist o pdim p q) ∧
+      ((List.range pts.length).filter fun j => decide (pdist o pdim p (pts.getD j []) ≤ t)).length = kk + 1) :
+    knnFilter topk o pdim kk radius pts = some
+      ((knnRetainedWith D' kk radius pts).map
+        fun p => meanCols (width pts) ((topkU false (pts.map (D' p)) (kk + 1)).map fun i => pts.getD i [])) := by
+  have hret : knnRetainedWith D' kk radius pts = knnRetained o pdim kk radius pts := by
+    cases radius with
+    | none => rfl
+    | some r =>
+      simp only [knnRetained, knnRetainedWith]
+      rw [(nbr_filter_robust o pdim r δ (kk : ℤ) pts D' hδ (hrad r rfl)).1]
+  rw [hret]
+  unfold knnFilter
+  rw [if_neg (by omega)]
+  congr 1
+  apply List.map_congr_left
+  intro p hp
+  have hpp := knnRetained_subset o pdim kk radius pts p hp
+  obtain ⟨t, hb, hc⟩ := hcut p hpp
+  have hmem : ∀ j, j < pts.length → pts.getD j [] ∈ pts := fun j hj => by
+    rw [List.getD_eq_getElem pts [] (n := j) hj]; exact List.getElem_mem hj
+  apply (knn_filter_robust topk topkU htk htu o pdim kk pts p (pts.map (D' p)) δ t hδ0 (by simp) ?_ ?_ hc).symm
+  · intro j hj
+    rw [map_dist_getD (D' p) pts j hj]
+    exact hδ p hpp _ (hmem j hj)
+  · intro j hj
+    exact hb _ (hmem j hj)
+
+/-- the row hypothesis of `knn_filter_robust_all` holds for a genuine cloud (`k = 1`, `δ = 1/4`, thresholds 1, 1, 4) -/
+example : ∀ p ∈ ([[0], [1], [5]] : List (Pt ℝ)), ∃ t : ℝ,
+    (∀ q ∈ ([[0], [1], [5]] : List (Pt ℝ)), pdist .l1 1 p q ≤ t ∨ t + 2 * (1 / 4) < pdist .l1 1 p q) ∧
+    ((List.range ([[0], [1], [5]] : List (Pt ℝ)).length).filter fun j =>
+      decide (pdist .l1 1 p (([[0], [1], [5]] : List (Pt ℝ)).getD j []) ≤ t)).length = 1 + 1 := by
+  intro p hp
+  simp only [List.mem_cons, List.not_mem_nil, or_false] at hp
+  rcases hp with rfl | rfl | rfl
+  · refine ⟨1, ?_, ?_⟩
+    · intro q hq
+      simp only [List.mem_cons, List.not_mem_nil, or_false] at hq
+      rcases hq with rfl | rfl | rfl <;> norm_num [pdist, dist, normOf, vsub, sumL_real, sabs_real]
+    · norm_num [List.range_succ, List.filter_cons, pdist, dist, normOf, vsub, sumL_real, sabs_real]
+  · refine ⟨1, ?_, ?_⟩
+    · intro q hq
+      simp only [List.mem_cons, List.not_mem_nil, or_false] at hq
+      rcases hq with rfl | rfl | rfl <;> norm_num [pdist, dist, normOf, vsub, sumL_real, sabs_real]
+    · norm_num [List.range_succ, List.filter_cons, pdist, dist, normOf, vsub, sumL_real, sabs_real]
+  · refine ⟨4, ?_, ?_⟩
+    · intro q hq
+      simp only [List.mem_cons, List.not_mem_nil, or_false] at hq
+      rcases hq with rfl | rfl | rfl <;> norm_num [pdist, dist, normOf, vsub, sumL_real, sabs_real]
+    · norm_num [List.range_succ, List.filter_cons, pdist, dist, normOf, vsub, sumL_real, sabs_real]
+
 end PP.Cloud
